@@ -53,6 +53,11 @@ SUBMISSIONS = {
 # instructor scripts
 # ------------------------------------------------------------------------------------------------------------
 SCRIPTS = {
+    'clears-report-midway': "from pedal import *\nassert_equal(call('add', 1, 2), 3)\nclear_report()\ngently('Said after the report was cleared', label='after_clear')\n",
+    'clears-report-and-suppresses': "from pedal import *\nclear_report()\nsuppress('runtime')\nsuppress('syntax')\nexplain('Only this', label='only_this')\n",
+    'clears-report-last': "from pedal import *\nassert_equal(call('add', 1, 2), 3)\nclear_report()\n",
+    'clears-report-then-overrides': "from pedal import *\nfrom pedal.sandbox.feedbacks import runtime_error\nclear_report()\nruntime_error.override(title='After clear')\nset_success()\n",
+    'pools-and-maximum': "from pedal import *\nfrom pedal.core.commands import set_correct as sc_class\ntry:\n    set_maximum_score(7)\nexcept Exception:\n    pass\ngive_partial(2)\nassert_equal(call('add', 1, 2), 3)\n",
     'plain-assert': "from pedal import *\nassert_equal(call('add', 1, 2), 3)\nassert_equal(call('add', -1, 1), 0)\n",
     'static-checks': "from pedal import *\nensure_function_call('print')\nprevent_operation('-')\nensure_ast('FunctionDef')\n",
     'crashing-script': "from pedal import *\nassert_equal(call('add', 1, 2), 3)\nraise RuntimeError('instructor bug')\n",
@@ -285,8 +290,16 @@ def run(ctx):
     from props import sbx_common as sc
     sc.private_cwd()
     lib = library()
-    names = [g['name'] for g in lib]
+    all_names = [g['name'] for g in lib]
     rng = ctx.rng
+    mine_twice = all_names[ctx.shard::ctx.nshards]
+    if ctx.quick():
+        # a fresh-interpreter reference costs about half a second: each shard works on its slice of the library plus a random
+        # selection of the rest (the shards' selections differ), the thorough tier on all of it
+        others = [n for n in all_names if n not in mine_twice]
+        names = mine_twice + rng.sample(others, min(24, len(others)))
+    else:
+        names = list(all_names)
     refs = compute_references(ctx, names)
     if len(refs) < len(names) * 0.9:
         return
@@ -298,14 +311,13 @@ def run(ctx):
         ctx.seen('script_kinds', KIND_OF_SCRIPT[g['script']])
         ctx.seen('envs', g['env'])
     # 1. each grading twice in a row (deterministic split over shards)
-    mine = names[ctx.shard::ctx.nshards]
-    for n in mine:
+    for n in mine_twice:
         run_history(ctx, lib, refs, [n, n], base_snap)
     # 2. ordered pairs: disturbing grading then victim
     pairs = [(a, b) for a in names for b in names if a != b]
     rng.shuffle(pairs)
-    my_pairs = pairs[ctx.shard::ctx.nshards]
-    npairs = ctx.pick(60, len(my_pairs))
+    my_pairs = pairs if ctx.quick() else pairs[ctx.shard::ctx.nshards]
+    npairs = ctx.pick(90, len(my_pairs))
     for a, b in my_pairs[:npairs]:
         if ctx.time_left() < 5:
             ctx.count('pairs_not_reached_budget')
